@@ -11,6 +11,13 @@ def add_cons(rep, prop):
     deductive(rep, prop, CC.FUNCS, "contracts.cons")
 
 
+def add_list(rep, prop):
+    from ..propbase import deductive
+    import contracts.listc as LC
+
+    deductive(rep, prop, LC.FUNCS, "contracts.listc")
+
+
 def run(tier, seed):
     rep = Report("C17", tier, seed, "other")
     from .. import normalize, reads
